@@ -55,6 +55,7 @@ class Inv:
         self.images = []    # name
         self.anns = [0, 0, 0, 0]   # data labels, data descs, file labels, file descs
         self.ext = []       # external file numbers in use
+        self.attrs = {}     # kind -> list of (object index, name, nt code, count): existing attributes
         self.nobj = 0
 
 
@@ -110,7 +111,9 @@ def gen_build(r):
         nrec = r.choice([1, 3, 10, 40])
         L.append("vswrite %d %d %d" % (i, nrec, r.randrange(100)))
         if r.random() < 0.5:
-            L.append("vssetattr %d -1 va%d %d %d %d" % (i, i, r.randrange(4), r.choice([1, 3]), r.randrange(50)))
+            nt_, n_ = r.randrange(4), r.choice([1, 3])
+            L.append("vssetattr %d -1 va%d %d %d %d" % (i, i, nt_, n_, r.randrange(50)))
+            inv.attrs.setdefault("vs", []).append((i, "va%d" % i, nt_, n_))
         if r.random() < 0.25:
             L.append("vssetattr %d 0 fa%d 0 2 %d" % (i, i, r.randrange(50)))
         inv.vdatas.append((name, fs, nrec))
@@ -129,7 +132,9 @@ def gen_build(r):
         if i > 0 and r.random() < 0.5:
             L.append("vinsertvg %d 0" % i)
         if r.random() < 0.5:
-            L.append("vsetattr %d ga%d %d %d %d" % (i, i, r.randrange(4), r.choice([1, 4]), r.randrange(50)))
+            nt_, n_ = r.randrange(4), r.choice([1, 4])
+            L.append("vsetattr %d ga%d %d %d %d" % (i, i, nt_, n_, r.randrange(50)))
+            inv.attrs.setdefault("vg", []).append((i, "ga%d" % i, nt_, n_))
         inv.vgroups.append(name)
     for i in range(len(inv.vdatas)):
         L.append("vsdetach %d" % i)
@@ -169,13 +174,17 @@ def gen_build(r):
                 L.append("grsetexternalfile %d %d 0" % (i, x))
             L.append("grwriteimage %d %d" % (i, r.randrange(100)))
             if r.random() < 0.5:
-                L.append("grsetattr 1 %d ra%d %d %d %d" % (i, i, r.randrange(4), r.choice([1, 5]), r.randrange(50)))
+                nt_, n_ = r.randrange(4), r.choice([1, 5])
+                L.append("grsetattr 1 %d ra%d %d %d %d" % (i, i, nt_, n_, r.randrange(50)))
+                inv.attrs.setdefault("ri", []).append((i, "ra%d" % i, nt_, n_))
             if r.random() < 0.3:
                 L.append("grwritelut %d %d" % (i, r.randrange(50)))
             L.append("grendaccess %d" % i)
             inv.images.append(name)
         if r.random() < 0.4:
-            L.append("grsetattr 0 0 gfa %d 3 %d" % (r.randrange(4), r.randrange(50)))
+            nt_ = r.randrange(4)
+            L.append("grsetattr 0 0 gfa %d 3 %d" % (nt_, r.randrange(50)))
+            inv.attrs.setdefault("gr", []).append((0, "gfa", nt_, 3))
         L.append("grend 0")
     L.append("hclose 0")
     # ---- SD
@@ -208,7 +217,9 @@ def gen_build(r):
                 else:
                     L.append("sdwritedata %d %d 0 0" % (i, r.randrange(100)))
             if r.random() < 0.5:
-                L.append("sdsetattr 1 %d 0 sa%d %d %d %d" % (i, i, r.randrange(6), r.choice([1, 3]), r.randrange(50)))
+                nt_, n_ = r.randrange(6), r.choice([1, 3])
+                L.append("sdsetattr 1 %d 0 sa%d %d %d %d" % (i, i, nt_, n_, r.randrange(50)))
+                inv.attrs.setdefault("sds", []).append((i, "sa%d" % i, nt_, n_))
             if r.random() < 0.4:
                 L.append("sdsetdimname %d 0 dn%d" % (i, r.randrange(3)))
             if r.random() < 0.3 and kind != "unlim":
@@ -219,10 +230,13 @@ def gen_build(r):
                 L.append("sdsetcal %d" % i)
             if r.random() < 0.2:
                 L.append("sdsetattr 2 %d 0 da%d 0 2 %d" % (i, i, r.randrange(50)))
+                inv.attrs.setdefault("dim", []).append((i, "da%d" % i, 0, 2))
             L.append("sdendaccess %d" % i)
             inv.sds.append((name, rank, kind == "unlim", kind.startswith("chunk")))
         if r.random() < 0.5:
-            L.append("sdsetattr 0 0 0 fattr %d %d %d" % (r.randrange(6), r.choice([1, 4]), r.randrange(50)))
+            nt_, n_ = r.randrange(6), r.choice([1, 4])
+            L.append("sdsetattr 0 0 0 fattr %d %d %d" % (nt_, n_, r.randrange(50)))
+            inv.attrs.setdefault("sd", []).append((0, "fattr", nt_, n_))
             inv.sdattrs = 1
         L.append("sdend 0")
     L.append("closeall")
@@ -252,6 +266,17 @@ def ro_call(r, inv):
     vdn = r.choice(inv.vdatas)[0] if inv.vdatas and r.random() < 0.85 else "nosuch"
     vgn = r.choice(inv.vgroups) if inv.vgroups and r.random() < 0.85 else "nosuch"
     x = r.choice(inv.ext + [7]) if r.random() < 0.5 else 7
+
+    def attr_of(kind, slotmax=3):
+        """(slot, name, nt, count): an EXISTING attribute of an object of this kind half of the time (same type, same or
+        smaller count: the library then takes its update-in-place path), else a new name"""
+        ex = [a for a in inv.attrs.get(kind, []) if a[0] < slotmax]
+        if ex and r.random() < 0.5:
+            o, name, nt_, n_ = r.choice(ex)
+            return o, name, nt_, r.choice([n_, n_, 1])
+        return r.randrange(3), nm(r, "at"), r.randrange(4), r.choice([1, 3])
+    a_sd, a_sds, a_dim, a_gr, a_ri, a_vg, a_vs = (attr_of("sd", 1), attr_of("sds"), attr_of("dim"), attr_of("gr", 1), attr_of("ri"),
+                                                   attr_of("vg"), attr_of("vs"))
     cands = [
         # ---- H mutators
         (4, "putelement 0 %d %d %d %d" % (t, rf, r.choice([1, 20, 200]), r.randrange(50))),
@@ -287,7 +312,7 @@ def ro_call(r, inv):
         (3, "vsetname %d %s" % (g, nm(r, "n"))), (2, "vsetclass %d %s" % (g, nm(r, "c"))),
         (3, "vaddtagref %d %d %d" % (g, t, rf)), (2, "vinsertvs %d %d" % (g, s)), (1, "vinsertvg %d %d" % (g, (g + 1) % 3)),
         (3, "vdeletetagref %d %d %d" % (g, t, rf)), (3, "vdeleten 0 %s" % vgn),
-        (3, "vsetattr %d %s %d %d %d" % (g, nm(r, "at"), r.randrange(4), r.choice([1, 3]), r.randrange(50))),
+        (3, "vsetattr %d %s %d %d %d" % (a_vg[0], a_vg[1], a_vg[2], a_vg[3], r.randrange(50))),
         (2, "vgetattr %d 0" % g), (2, "vinfo %d" % g), (1, "vgetid 0 -1"), (1, "vfind 0 %s" % vgn), (1, "vlone 0"),
         (2, "vdetach %d" % g),
         # ---- Vdata
@@ -298,7 +323,8 @@ def ro_call(r, inv):
         (3, "vssetfields %d %s" % (s, r.choice([v[1] for v in inv.vdatas] + ["a"]))),
         (4, "vswrite %d %d %d" % (s, r.choice([1, 5]), r.randrange(50))),
         (3, "vsread %d %d" % (s, r.choice([1, 3]))), (2, "vsseek %d %d" % (s, r.choice([0, 1, 2]))),
-        (3, "vssetattr %d %d %s %d %d %d" % (s, r.choice([-1, 0]), nm(r, "at"), r.randrange(4), r.choice([1, 3]), r.randrange(50))),
+        (3, "vssetattr %d -1 %s %d %d %d" % (a_vs[0], a_vs[1], a_vs[2], a_vs[3], r.randrange(50))),
+        (1, "vssetattr %d 0 %s %d %d %d" % (s, nm(r, "at"), r.randrange(4), r.choice([1, 3]), r.randrange(50))),
         (2, "vsgetattr %d -1 0" % s), (3, "vsdeleten 0 %s" % vdn), (2, "vsinfo %d" % s), (1, "vsfind 0 %s" % vdn),
         (1, "vsgetid 0 -1"), (1, "vslone 0"), (2, "vssetinterlace %d %d" % (s, r.choice([0, 1]))),
         (1, "vssetblocksize %d 128" % s), (1, "vssetnumblocks %d 4" % s), (1, "vsappendable %d 64" % s),
@@ -311,7 +337,10 @@ def ro_call(r, inv):
         (6, "sdselect %d 0 %d" % (d, r.randrange(max(1, len(inv.sds) + 1)))),
         (5, "sdwritedata %d %d %d 0" % (d, r.randrange(50), r.choice([0, 0, 1, 2]))),
         (4, "sdreaddata %d" % d),
-        (4, "sdsetattr %d %d 0 %s %d %d %d" % (r.choice([0, 1, 1, 2]), d if r.random() < 0.8 else 0, nm(r, "at"), r.randrange(6), r.choice([1, 3]), r.randrange(50))),
+        (2, "sdsetattr 0 0 0 %s %d %d %d" % (a_sd[1], a_sd[2], a_sd[3], r.randrange(50))),
+        (3, "sdsetattr 1 %d 0 %s %d %d %d" % (a_sds[0], a_sds[1], a_sds[2], a_sds[3], r.randrange(50))),
+        (2, "sdsetattr 2 %d 0 %s %d %d %d" % (a_dim[0], a_dim[1], a_dim[2], a_dim[3], r.randrange(50))),
+        (4, "sdwritedim %d %d %d" % (d, r.choice([0, 0, 1]), r.randrange(50))),
         (2, "sdreadattr %d %d 0 0" % (r.choice([0, 1, 2]), d)),
         (3, "sdsetdimname %d 0 %s" % (d, nm(r, "dn"))), (3, "sdsetdimscale %d 0 %d %d" % (d, r.randrange(4), r.randrange(50))),
         (5, "sdgetdimscale %d 0" % d), (2, "sdsetdimstrs %d 0" % d), (2, "sdsetdimval_comp %d 0 %d" % (d, r.choice([0, 1]))),
@@ -326,7 +355,8 @@ def ro_call(r, inv):
         (3, "grcreate %d 0 %s %d %d 4 3" % (i, nm(r, "ni"), r.choice([1, 3]), r.randrange(3))),
         (5, "grselect %d 0 %d" % (i, r.randrange(max(1, len(inv.images) + 1)))),
         (4, "grwriteimage %d %d" % (i, r.randrange(50))), (4, "grreadimage %d" % i),
-        (4, "grsetattr %d %d %s %d %d %d" % (r.choice([0, 1, 1]), i if r.random() < 0.8 else 0, nm(r, "at"), r.randrange(4), r.choice([1, 3]), r.randrange(50))),
+        (3, "grsetattr 0 0 %s %d %d %d" % (a_gr[1], a_gr[2], a_gr[3], r.randrange(50))),
+        (4, "grsetattr 1 %d %s %d %d %d" % (a_ri[0], a_ri[1], a_ri[2], a_ri[3], r.randrange(50))),
         (2, "grgetattr %d %d 0" % (r.choice([0, 1]), i)), (3, "grwritelut %d %d" % (i, r.randrange(50))), (2, "grreadlut %d" % i),
         (3, "grsetcompress %d %d" % (i, r.choice([1, 3]))), (3, "grsetchunk %d" % i), (3, "grsetexternalfile %d %d 0" % (i, x)),
         (2, "grsetaccesstype %d" % i), (1, "grsetchunkcache %d 2" % i), (1, "grreqimageil %d %d" % (i, r.choice([0, 1, 2]))),
@@ -370,6 +400,15 @@ def gen_ro_program(r, inv):
     for j, v in enumerate(inv.vgroups[:3]):
         if r.random() < 0.7:
             L.append("vattachn %d 0 %s r" % (j, v))
+    # a second attach of an object that is attached already (first vs. repeated attach take different paths)
+    if inv.vdatas and r.random() < 0.5:
+        L.append("vsattachn 3 0 %s %s" % (inv.vdatas[0][0], r.choice("rw")))
+    if inv.vgroups and r.random() < 0.5:
+        L.append("vattachn 3 0 %s %s" % (inv.vgroups[0], r.choice("rw")))
+    if inv.sds and r.random() < 0.4:
+        L.append("sdselect 3 0 0")
+    if inv.images and r.random() < 0.4:
+        L.append("grselect 3 0 0")
     for j in range(min(3, len(inv.sds))):
         if r.random() < 0.8:
             L.append("sdselect %d 0 %d" % (j, j))
@@ -379,10 +418,53 @@ def gen_ro_program(r, inv):
     for t in range(4):
         if inv.anns[t] and r.random() < 0.7:
             L.append("anselect %d 0 0 %d" % (t % 3, t))
-    for _ in range(r.randrange(25, 70)):
+    n = r.randrange(25, 70)
+    refuse_at = r.randrange(n) if r.random() < 0.35 and not same_twice else -1
+    for k in range(n):
+        if k == refuse_at:
+            L += refused_write_open(r)
         L.append(ro_call(r, inv))
     L += ["closeall", "check", "dump 0"]
     return L
+
+
+def refused_write_open(r):
+    """a write-mode open of the path that is already open read-only, made to FAIL by hiding the file for a moment
+    (works for any uid); every later mutator still goes through the old, read-only id"""
+    how = r.choice(["h", "h", "sd"])
+    return ["hide 0", "hopen 1 %d 0 0" % r.choice([3, 2, 3]) if how == "h" else "sdstart 1 0 3", "unhide 0"]
+
+
+def gen_os_history(r, name):
+    """OS-level scenario: the HDF file is write-protected (mode 0444) and the process runs as an unprivileged user, the
+    external files stay writable; a write-mode open of the already read-open path is refused by the OS; then the
+    mutators of every layer through the read-only ids, first of all writes to the external elements"""
+    b, inv = gen_build(r)
+    b = [l for l in b if l not in ("snapshot", "dump 0") and not l.startswith("rmfile")]
+    # make sure there is an external element and an external SDS to aim at
+    extra = ["hopen 0 3 0", "hxcreate 0 0 1003 77 8 0 0", "write 0 40 9", "endaccess 0", "putelement 0 1002 78 24 3", "hclose 0"]
+    inv.elems += [(1003, 77, "ext"), (1002, 78, "plain")]
+    L = ["history " + name] + b + extra + ["closeall", "chmodro f0.hdf", "dropuid", "snapshot", "dump 0"]
+    L += ["hopen 0 1 0", "vstart 0"]
+    if r.random() < 0.7:
+        L.append("sdstart 0 0 1")
+    if r.random() < 0.7:
+        L.append("grstart 0 0")
+    for j in range(min(3, len(inv.sds))):
+        L.append("sdselect %d 0 %d" % (j, j))
+    for j in range(min(3, len(inv.images))):
+        L.append("grselect %d 0 %d" % (j, j))
+    # the refused write-open: by permission (no hiding needed when the uid could be dropped), or by hiding
+    if r.random() < 0.5:
+        L += ["hopen 1 3 0 0"]
+    else:
+        L += refused_write_open(r)
+    L += ["startaccess 3 0 1003 77 3", "write 3 16 5", "endaccess 3", "startwrite 3 0 1001 97 10", "endaccess 3",
+          "deldd 0 1002 78", "getelement 0 1002 78", "dupdd 0 1100 9 1002 78", "hxcreate 3 0 1002 78 6 0 0", "endaccess 3"]
+    for _ in range(r.randrange(10, 30)):
+        L.append(ro_call(r, inv))
+    L += ["closeall", "regainuid", "check", "dump 0"]
+    return L, inv, "ro"
 
 
 def gen_rw_noop(r, inv):
@@ -412,6 +494,8 @@ def gen_rw_noop(r, inv):
 
 
 def gen_history(r, name):
+    if r.random() < 0.12:
+        return gen_os_history(r, name)
     b, inv = gen_build(r)
     if r.random() < 0.8:
         return ["history " + name] + b + gen_ro_program(r, inv), inv, "ro"
@@ -723,7 +807,7 @@ def run_model(ctx):
 MUT_ALL = set("""putelement startwrite write trunc setlength hlcreate hlconvert hxcreate hccreate hmccreate dupdd deldd reuse
 startbitwrite bitwrite vsetname vsetclass vaddtagref vinsertvs vinsertvg vdeletetagref vdelete vdeleten vsetattr vswrite
 vssetname vssetclass vssetattr vsdelete vsdeleten vssetexternalfile vhstoredata vhmakegroup sdcreate sdwritedata sdsetattr
-sdsetdimname sdsetdimscale sdsetdimstrs sdsetdimval_comp sdsetdatastrs sdsetcal sdsetfillvalue sdsetrange sdsetcompress
+sdwritedim sdsetdimname sdsetdimscale sdsetdimstrs sdsetdimval_comp sdsetdatastrs sdsetcal sdsetfillvalue sdsetrange sdsetcompress
 sdsetchunk sdsetexternalfile sdsetnbitdataset sdwritechunk grcreate grwriteimage grsetattr grwritelut grsetcompress grsetchunk
 grsetexternalfile anwriteann""".split())   # statistics only (the oracle's list is ROSpec.mutators)
 
